@@ -174,6 +174,27 @@ def gen_truncations(ctx, rnd):
     yield Case("ws://a.example/", [DialSpec([("chunk", good[i:i + 1]) for i in range(len(good))], rand=r0)], tag="bytewise")
 
 
+def gen_interrupts(ctx, rnd):
+    """the caller is interrupted INSIDE the handshake (Ctrl-C, SystemExit, a deadline raised into the call by a green-thread
+    or async framework — BaseExceptions, not Exceptions) at a byte of the response: the call raises, and like "every other
+    case" leaves the transport closed and the object unconnected.  Oracle only (the model has no such event)."""
+    r0, r1 = rands(rnd, 2)
+    k0, k1 = key_of(r0), key_of(r1)
+    good = response("101", good_headers(k0))
+    redir = response("307", [("Location", "ws://b.example/")], reason="Temporary Redirect")
+    good1 = response("101", good_headers(k1))
+    pts = sorted({0, 1, 12, 34, 35, len(good) // 2, len(good) - 2, len(good) - 1})
+    for i in pts:
+        for kind in ("ki", "exit", "deadline"):
+            for via in ("connect", "create_connection"):
+                yield Case("ws://a.example/", [DialSpec([("chunk", good[:i]), ("interrupt", kind), ("chunk", good[i:])], rand=r0)],
+                           via=via, tag=f"interrupt:{i}:{kind}:{via}")
+    for kind in ("ki", "deadline"):
+        yield Case("ws://a.example/", [DialSpec([("chunk", redir)], rand=r0),
+                                       DialSpec([("chunk", good1[:20]), ("interrupt", kind)], rand=r1)],
+                   locations=["ws://b.example/"], tag=f"interrupt2:{kind}")
+
+
 def gen_failures(ctx, rnd):
     r0, r1 = rands(rnd, 2)
     k0, k1 = key_of(r0), key_of(r1)
@@ -478,6 +499,8 @@ def run_cases(ctx, cases):
     out = common.run_driver_parallel(lines + spec_lines)
     mo, so = out[:len(lines)], out[len(lines):]
     for case, l, m, o in zip(keep, lines, mo, obs):
+        if case.tag.startswith("interrupt"):
+            continue                       # (oracle only: the model has no interruption event)
         if case.via == "create_connection" and not o.startswith("ok "):
             # the object is lost when create_connection raises: compare what remains observable
             m = re.sub(r" status=\S+ sub=\S+", "", m)
@@ -565,14 +588,14 @@ def run_corpus(ctx):
 
 def all_cases(ctx):
     rnd = ctx.rng("e2e")
-    for g in (gen_chains, gen_failures, gen_options_chain, gen_single, gen_truncations, gen_soup, gen_garbled):
+    for g in (gen_chains, gen_failures, gen_options_chain, gen_single, gen_truncations, gen_interrupts, gen_soup, gen_garbled):
         yield from g(ctx, rnd)
 
 
 def run(ctx):
     ctx.rule = ("e2e connect(): status x Upgrade x Connection x accept x subprotocol/offered (pairwise + random; full "
                 "product in thorough), redirect chains 0..5 x limits {default,0..4}, EOF/timeout/reset at every byte of "
-                "a response, dial/TLS/send/proxy failures, caller socket, header soup; unit: read_headers / "
+                "a response, the caller's own interruption (KeyboardInterrupt / SystemExit / a BaseException deadline) at bytes of a response, dial/TLS/send/proxy failures, caller socket, header soup; unit: read_headers / "
                 "_get_resp_headers on grammar, corrupted, truncated and exhaustive short heads, _validate product, "
                 "SHA-1/base64 vs hashlib (non-trivial = anything but the plain successful single dial)")
     run_corpus(ctx)
